@@ -204,11 +204,11 @@ func (p *peer) armedKind() string {
 
 func (p *peer) legacyStream(w http.ResponseWriter, r *http.Request) {
 	c, _ := p.hijack(w)
+	p.mu.Lock()
+	p.stream = c // before the endpoint event: the client posts as soon as it has the endpoint
+	p.mu.Unlock()
 	io.WriteString(c, "HTTP/1.1 200 OK\r\nContent-Type: text/event-stream\r\nCache-Control: no-cache\r\n\r\n")
 	io.WriteString(c, "event: endpoint\ndata: /message?sessionId="+p.sid+"\n\n")
-	p.mu.Lock()
-	p.stream = c
-	p.mu.Unlock()
 	close(p.streamUp)
 }
 
